@@ -317,7 +317,8 @@ def handleMinusLine : Handler := fun cfg m l =>
   if !minusLineTest m l then .ok (false, m) else
     let pe := parseDiffHeaderLine l.text (m.source = .gitDiff)
     let m1 := { m with minusFile := pe.1, minusEvent := pe.2,
-                       st := if m.source = .diffUnified then .diffHeader .unified else m.st }
+                       st := if m.source = .diffUnified then .diffHeader .unified else m.st,
+                       handledPair := if m.source = .diffUnified then none else m.handledPair }
     .ok (shouldWriteGeneric cfg (flushMP m1) l)
 
 def plusLineTest (m : M) (l : L) : Bool :=
